@@ -51,6 +51,14 @@ CLAIMED = {
          "Every token sequence up to length 4 (quick) / 6 (thorough) over two names, three literal types, their DEFINEs, NAME.QUOTE and CODE.DEFINITION, plus random programs over all eight defining types with pool values (NaN, empty vectors, nested code), run to completion and compared with the reference (binding map, quote flag, typed stacks) after every step.",
          "Trusted: name semantics of the reference interpreter (refmodel2::ref_step, refmodel::ref_instr DEFINE).",
          "DESIGN.md section 4, C07"),
+ "C01": ("fuzz-style PBT: single-instruction sweep over the whole registry with boundary operand profiles + generated and self-generated programs, monitored stepping and run(), crash/abort/hang supervision by a journalled worker process",
+         "Every registered instruction is stepped on hundreds (quick) / thousands (thorough) of operand profiles built from the documented footprint (depths around the need, boundary ints/floats/vectors, indices at len-1/len/len+1, live and stale node ids, empty message bodies); program trees over the full registry and programs from pushr's own generator run for <= 400 monitored steps and, when deterministic and inside the resource envelope, through run(). Panics are caught per case; aborts and hangs kill the worker and are confirmed from its journal in a fresh process.",
+         "Trusted: the resource envelope of DESIGN.md section 3 (size operands > 4096 clamped, runaway states abandoned, EXEC.CMD spawns only /bin/true). Dev profile only in-process; the release profile is exercised by the C04/C14 differentials.",
+         "DESIGN.md section 4, C01"),
+ "C10": ("enumerated shortage patterns x random full states against the documented footprint table (frame and no-fabrication invariants)",
+         "For every registered instruction every assignment of a too-small depth to every non-empty subset of its operand stacks is enumerated, plus the all-present case and hand-listed failing guards, each on random states in which every stack, queue, graph and the bindings are non-empty; the complete before/after snapshots must satisfy the unfired rule (only operand stacks shrink, nothing gained or changed) or the fired rule (changes confined to the documented footprint).",
+         "Trusted: design/footprint.tsv (compiled from the doc comments, cross-checked against the pinned tree) and the hand-listed guard cases in harness/src/props/c10.rs. Which of its own operands an unfired instruction consumes is unspecified.",
+         "DESIGN.md section 4, C10"),
 }
 PENDING_REASON = "check not built yet in this round (work in progress, see DESIGN.md section 4 for the planned check)"
 
